@@ -404,9 +404,12 @@ class SymInt:
         raise Unsupported('modulo by a symbolic value')
     def __divmod__(self, o): return (self // o, self % o)
     def __truediv__(self, o):
+        if isinstance(o, float) and o != 0.0: return SymScaled(self, 1.0 / o)
         k = o if type(o) is int else (o.conc() if isinstance(o, SymInt) else None)
-        if k is None or k == 0 or (abs(k) & (abs(k) - 1)) != 0 or abs(k) > 1024:
-            raise Unsupported('float division of a symbolic int by anything but +-2^j')
+        if k is not None and k != 0 and ((abs(k) & (abs(k) - 1)) != 0 or abs(k) > 1024):
+            return SymScaled(self, 1.0 / k)        # opaque: only stubs may look inside
+        if k is None or k == 0:
+            raise Unsupported('float division of a symbolic int by a symbolic value or zero')
         if self.lo is None or self.hi is None or self.lo <= -(1 << 64) or self.hi >= (1 << 64):
             raise Unsupported('float division of a symbolic int beyond 64 bits')
         return SymQuot(self, k)
